@@ -353,6 +353,10 @@ class Assembler:
                 continue
             if b == 'novis':
                 opts['novis'] = True
+            elif b == 'optional':
+                # a LEAF item (nothing else in the unit calls it): if its anchors are lost after an edit, only
+                # this item becomes undecided instead of the whole unit
+                opts['optional'] = True
             elif b == 'nocontract':
                 # the item is verified WITHOUT a contract (an item the template does not name, hosted outside
                 # its trait): recorded so that the check reports its failure as "new code without a contract",
@@ -404,7 +408,16 @@ class Assembler:
                 raise AssembleError(f'{tplpos[0]}: unknown option "{b}" in extract {spec}')
         rep = {'item': f'{rel} :: {ipath.strip()}', 'repo_line': sf.line_of(it.sig_start),
                'dropped': [], 'rules': {}, 'rewrites': []}
-        if it.kind == 'fn':
+        if it.kind == 'fn' and opts.get('optional'):
+            try:
+                text = self.render_fn(sf, it, opts, rep)
+            except AssembleError as e:
+                mi_ = re.search(r'impl(?:<[^{}]*?>)?\s+(?:[\w:<>\', ]+\s+for\s+)?([A-Za-z_]\w*)', ipath)
+                name = (mi_.group(1) + '::' if mi_ else '') + it.name
+                self.report.setdefault('lost_items', []).append({'name': name, 'reason': str(e)})
+                self.out.append((f'// (optional item {name} not extracted: anchor lost)', ('tpl', tplpos[0], tplpos[1])))
+                return
+        elif it.kind == 'fn':
             text = self.render_fn(sf, it, opts, rep)
         elif it.kind in ('struct', 'union'):
             text = self.render_struct(sf, it, opts, rep)
